@@ -44,6 +44,11 @@ Proof.
   cbn [ret fst]. intros H; inversion H. split; [apply Nat.leb_le; exact E | reflexivity].
 Qed.
 
+Lemma slice_to_neg_pos (d : bytes) n : (0 < n)%nat -> slice_to_neg d n = firstn (length d - n) d.
+Proof. destruct n; [lia | reflexivity]. Qed.
+Lemma slice_from_neg_pos (d : bytes) n : (0 < n)%nat -> slice_from_neg d n = skipn (length d - n) d.
+Proof. destruct n; [lia | reflexivity]. Qed.
+
 Section Icv.
   Variable enc : bytes -> bytes -> bytes -> bytes.
   Variable mac : bytes -> bytes -> bytes.
@@ -74,12 +79,11 @@ Section Icv.
     assert (Hpl : length pre = (length data' - length checksum)%nat) by (unfold pre; rewrite firstn_length; lia).
     assert (Hdl : length d = length data') by (rewrite Hd, app_length; lia).
     assert (Hto : slice_to_neg d (c_icv cr) = pre).
-    { unfold slice_to_neg. destruct (c_icv cr) eqn:E; [lia|]. rewrite <- E, Hdl, <- Hcl, <- Hpl, Hd.
-      apply firstn_app_exact. }
+    { rewrite slice_to_neg_pos by exact Hicv. rewrite Hdl, <- Hcl, <- Hpl, Hd. apply firstn_app_exact. }
     assert (Hto' : slice_to_neg data' (c_icv cr) = pre).
-    { unfold slice_to_neg. destruct (c_icv cr) eqn:E; [lia|]. rewrite <- E, <- Hcl. reflexivity. }
+    { rewrite slice_to_neg_pos by exact Hicv. rewrite <- Hcl. reflexivity. }
     split.
-    - rewrite Hto. unfold slice_from_neg. destruct (c_icv cr) eqn:E; [lia|]. rewrite <- E, Hdl, <- Hcl, <- Hpl, Hd.
+    - rewrite Hto. rewrite slice_from_neg_pos by exact Hicv. rewrite Hdl, <- Hcl, <- Hpl, Hd.
       rewrite skipn_app_exact. unfold checksum. rewrite Hto'. reflexivity.
     - intros Hlen.
       assert (Hf1 : fits fmt_Message_to_bytes_1 [VN (N.of_nat (length data))]).
@@ -96,15 +100,14 @@ Section Icv.
         set (A := firstn 24 data). assert (HA : length A = 24%nat) by (unfold A; rewrite firstn_length; lia).
         set (B := be_encode 4 _). set (C := skipn (24 + (4 + 0)) data).
         assert (HB : length B = 4%nat) by apply be_encode_length.
-        rewrite firstn_app. rewrite firstn_length.
-        replace (Nat.min (length (A ++ B ++ C) - length checksum) (length (A ++ B ++ C))) with (length (A ++ B ++ C) - length checksum)%nat by lia.
-        rewrite <- HA at 1. rewrite <- app_assoc.
         assert (Hn : (28 <= length (A ++ B ++ C) - length checksum)%nat).
-        { rewrite <- Hd', Hdatal. rewrite Hdl, Hdatal in Hlen. lia. }
-        rewrite firstn_app, HA. rewrite (firstn_all2 A) by lia.
-        rewrite <- app_assoc, skipn_app_exact.
-        rewrite firstn_app, HB. rewrite (firstn_all2 B) by lia.
-        replace (28 - 24)%nat with (length B) by lia. rewrite <- app_assoc, firstn_app_exact. reflexivity. }
+        { assert (HX : length (A ++ B ++ C) = length data) by (rewrite !app_length, HA, HB; unfold C; rewrite skipn_length; lia).
+          rewrite HX. rewrite Hdl, Hdatal in Hlen. lia. }
+        set (k := (length (A ++ B ++ C) - length checksum)%nat) in *.
+        rewrite (firstn_app k A), (firstn_all2 A) by lia.
+        rewrite (firstn_app (k - length A) B), (firstn_all2 B) by lia.
+        rewrite <- !app_assoc. rewrite <- HA. rewrite skipn_app_exact.
+        match goal with |- firstn ?n _ = _ => replace n with (length B) by lia end. apply firstn_app_exact. }
       rewrite Hs, be_decode_encode by (destruct Hf1 as [Hf1 _]; rewrite pow4 in Hf1; exact Hf1).
       rewrite Hdl, Hdatal. reflexivity.
   Qed.
